@@ -171,6 +171,9 @@ pub struct Obs {
     pub ring_lc_pos: Option<usize>,
     pub utxo: Vec<(SaitoUTXOSetKey, bool)>,
     pub wallet_slips: Vec<SaitoUTXOSetKey>,
+    /// per wallet slip: what the wallet records about it (origin block, transaction ordinal, index,
+    /// amount, spent, on-chain, type) - the fields its next transactions are built from
+    pub wallet_slip_records: Vec<String>,
     pub wallet_unspent: Vec<SaitoUTXOSetKey>,
     pub wallet_staking: Vec<SaitoUTXOSetKey>,
     pub wallet_balance: u64,
@@ -254,6 +257,8 @@ impl Obs {
         o.utxo.sort();
         o.wallet_slips = w.slips.keys().cloned().collect();
         o.wallet_slips.sort();
+        o.wallet_slip_records = w.slips.values().map(|s| format!("{}-{}-{}:{}:spent={}:lc={}:{:?}", s.block_id, s.tx_ordinal, s.slip_index, s.amount, s.spent, s.lc, s.slip_type)).collect();
+        o.wallet_slip_records.sort();
         o.wallet_unspent = w.unspent_slips.iter().cloned().collect();
         o.wallet_unspent.sort();
         o.wallet_staking = w.staking_slips.iter().cloned().collect();
@@ -319,6 +324,7 @@ impl Obs {
         cmp!(ring_lc_pos);
         cmp!(utxo);
         cmp!(wallet_slips);
+        cmp!(wallet_slip_records);
         cmp!(wallet_unspent);
         cmp!(wallet_staking);
         cmp!(wallet_balance);
